@@ -837,6 +837,22 @@ func (ev *Evaluator) binop(op token.Token, x, y Val, pos token.Pos) (Val, error)
 	if r, ok := rangeArith(op, x, y); ok {
 		return r, nil
 	}
+	// multiplication by ±1 (a sign factor)
+	if op == token.MUL {
+		for _, pair := range [][2]Val{{x, y}, {y, x}} {
+			if c, ok := pair[0].(Const); ok && c.V != nil && c.V.Kind() == constant.Int {
+				switch c.V.ExactString() {
+				case "1":
+					return pair[1], nil
+				case "-1":
+					if n, ok := pair[1].(Neg); ok {
+						return n.X, nil
+					}
+					return Neg{pair[1]}, nil
+				}
+			}
+		}
+	}
 	// symbolic arithmetic: keep as term
 	return Term{Fn: op.String(), Args: []Val{x, y}}, nil
 }
